@@ -272,6 +272,17 @@ Print Assumptions C08_explicit_fill_is_used.
 Example C08_ex_fill_zero : grid_value (effective_fill (Some 0%Q) 127%Q) None = 0%Q /\ classify QO (effective_fill (Some 0%Q) 7%Q) 0%Q = None.
 Proof. split; reflexivity. Qed.
 
+(* an explicitly passed rows_per_scan is the scan size used, whatever the geolocation attrs say; 0 means the whole
+   swath; the attrs are used only when the keyword is None; nothing given is an error (None) *)
+Theorem C08_explicit_rows_per_scan_wins : forall (k : Z) (attr : option Z) (nrows : Z),
+  get_rows_per_scan (Some k) attr nrows = Some (if (k =? 0)%Z then nrows else k) /\
+  get_rows_per_scan None attr nrows = get_rows_per_scan attr None nrows /\
+  get_rows_per_scan None None nrows = None.
+Proof. intros. repeat split. destruct attr; reflexivity. Qed.
+Print Assumptions C08_explicit_rows_per_scan_wins.
+Example C08_ex_rows_per_scan : get_rows_per_scan (Some 4%Z) (Some 2%Z) 8%Z = Some 4%Z /\ get_rows_per_scan (Some 0%Z) (Some 2%Z) 8%Z = Some 8%Z.
+Proof. split; reflexivity. Qed.
+
 (* masked-array entry point of fornav: the result is masked where _mask_helper (regenerated from ewa.py) says so, which
    is exactly where a value would be classified as invalid input (NaN equals nothing: first hypothesis; a written
    cell is the fill or a number: second) *)
